@@ -23,6 +23,9 @@ func init() {
 	register(&Workload{Prop: "C04", Variant: "asker-death", Horizon: 30 * time.Minute, MaxSteps: 400000, MaxG: 4096, Spin: 10000, PCTLen: 2500, Race: true, Weight: 1, Body: func(r *R) { c04Ask(r, true) }})
 	// the asker terminates by way of a supervised restart: killed while the restart waits for a child, or a failed
 	// restart hook (zombie) followed by a kill
+	// goroutines stall for simulated time at scheduling points (descheduling, GC pauses): timers - also very short Ask
+	// timeouts - fire in the middle of the code that set them up. Only the rules that do not depend on timing apply.
+	register(&Workload{Prop: "C04", Variant: "stalled", Horizon: 30 * time.Minute, MaxSteps: 400000, MaxG: 4096, Spin: 10000, PCTLen: 4000, Weight: 1, Stall: 40, Body: func(r *R) { c04AskStalled(r) }})
 	register(&Workload{Prop: "C04", Variant: "asker-restart-death", Horizon: 30 * time.Minute, MaxSteps: 400000, MaxG: 4096, Spin: 10000, PCTLen: 2500, Weight: 1, Body: func(r *R) { c04AskMode(r, true, true) }})
 }
 
@@ -65,7 +68,17 @@ type c04AskT struct {
 
 func c04Ask(r *R, deathFocus bool) { c04AskMode(r, deathFocus, false) }
 
+// c04Stalled is set for the duration of a run of the variant "stalled" (runs of a worker process are sequential).
+var c04Stalled bool
+
+func c04AskStalled(r *R) {
+	c04Stalled = true
+	defer func() { c04Stalled = false }()
+	c04AskMode(r, false, false)
+}
+
 func c04AskMode(r *R, deathFocus, viaRestart bool) {
+	stalled := c04Stalled
 	opt := WorldOpt{}
 	zombie := false
 	if viaRestart {
@@ -136,6 +149,10 @@ func c04AskMode(r *R, deathFocus, viaRestart bool) {
 		}
 	}
 	timeouts := []time.Duration{time.Millisecond, 50 * time.Millisecond, 200 * time.Millisecond, time.Second, 5 * time.Second, 30 * time.Second}
+	if stalled {
+		// time-outs shorter than a stall: the timer can fire before Ask has finished setting the request up
+		timeouts = []time.Duration{time.Microsecond, 100 * time.Microsecond, time.Millisecond, time.Millisecond, 50 * time.Millisecond, time.Second}
+	}
 	delays := []time.Duration{time.Millisecond, 50 * time.Millisecond, 200 * time.Millisecond, 900 * time.Millisecond, 2 * time.Second}
 	nAsks := 1 + r.Choose(12)
 	var asks []*c04AskT
@@ -283,6 +300,11 @@ func c04AskMode(r *R, deathFocus, viaRestart bool) {
 		r.Count("asker-killed")
 	}
 	vsimrt.Settle()
+	if stalled {
+		// a stalled handler is not schedulable: quiescence at one instant no longer means that every asker has issued its
+		// Ask and registered its waiters; stalls last at most 300 ms each
+		vsimrt.SettleFor(5 * time.Second)
+	}
 	r.Waiting("every Result()/Wait() to return")
 	wg.Wait()
 	vsimrt.Yield()
@@ -293,6 +315,9 @@ func c04AskMode(r *R, deathFocus, viaRestart bool) {
 		}
 	}
 	vsimrt.SettleFor(3 * time.Second)
+	if stalled {
+		vsimrt.SettleFor(30 * time.Second)
+	}
 	if r.Failed() {
 		return
 	}
@@ -324,7 +349,7 @@ func c04AskMode(r *R, deathFocus, viaRestart bool) {
 					resMsg = o.msg
 				}
 			}
-			if o.at != first.at {
+			if o.at != first.at && !stalled {
 				r.Fail("C04/waiters-released-at-different-times", "ask%d: one waiter returned at %v, another at %v", a.idx, first.at, o.at)
 				return
 			}
@@ -363,7 +388,7 @@ func c04AskMode(r *R, deathFocus, viaRestart bool) {
 				r.Fail("C04/impossible-reply", "%s completed with a reply nobody sent", desc)
 				return
 			}
-			if done > deadline {
+			if done > deadline && !stalled {
 				r.Fail("C04/completed-after-timeout", "%s: the reply completed the future after its deadline %v", desc, deadline)
 				return
 			}
@@ -373,15 +398,15 @@ func c04AskMode(r *R, deathFocus, viaRestart bool) {
 				r.Fail("C04/timeout-early", "%s timed out before its deadline %v", desc, deadline)
 				return
 			}
-			if done > deadline {
+			if done > deadline && !stalled {
 				r.Fail("C04/timeout-late", "%s: Result/Wait blocked until %v, beyond the deadline %v", desc, done, deadline)
 				return
 			}
-			if a.fromActor == killAsker && killedAt >= 0 && a.askAt <= killedAt && killedAt < deadline {
+			if a.fromActor == killAsker && killedAt >= 0 && a.askAt <= killedAt && killedAt < deadline && !stalled {
 				r.Fail("C04/asker-death-not-propagated", "%s: the asking actor was killed at %v, before the deadline %v, but the future was left to run into its time-out instead of completing with actor-dead", desc, killedAt, deadline)
 				return
 			}
-			if replyAt >= 0 && replyAt < deadline && !killedFirst && !(a.closed && a.closedAt <= deadline) {
+			if replyAt >= 0 && replyAt < deadline && !killedFirst && !(a.closed && a.closedAt <= deadline) && !stalled {
 				r.Fail("C04/reply-lost", "%s timed out although its responder replied at %v", desc, replyAt)
 				return
 			}
@@ -413,6 +438,7 @@ func c04AskMode(r *R, deathFocus, viaRestart bool) {
 			got := pipeGot[ref.GetPath()]
 			if len(got) != 1 {
 				r.Fail(fmt.Sprintf("C04/pipe-result-count=%d when=%s", len(got), []string{"-", "before", "around", "after"}[a.pipe]), "%s: forwarder %d (PipeTo %s completion) received %d PipeResults", desc, k, []string{"-", "before", "around", "after"}[a.pipe], len(got))
+				w.DumpNotes(200)
 				return
 			}
 			pr := got[0]
